@@ -108,7 +108,8 @@ class Profile:
         if spec.get("kind") == "file":
             return "file:" + spec["path"] + (":dual" if spec.get("use_dual") else "")
         d = spec.get("dialect") or {}
-        return f"{spec['mesh']}/{spec.get('prov', 'topology')}/{','.join(sorted(d.get('extra', [])))}"
+        tag = ("+reenc" if spec.get("reencode") is not None else "") + ("+subset" if spec.get("subset") else "")
+        return f"{spec['mesh']}/{spec.get('prov', 'topology')}/{','.join(sorted(d.get('extra', [])))}{tag}"
 
     # ------------------------------------------------------------------
     def execute(self, trace, env):
